@@ -5,6 +5,7 @@ from dataclasses import dataclass
 import sys
 from typing import TypeVar
 from geneticengine.exceptions import GeneticEngineError
+from geneticengine.grammar.metahandlers.base import SynthesisException
 
 from geneticengine.grammar.grammar import Grammar
 from geneticengine.random.sources import RandomSource
@@ -79,6 +80,8 @@ class DynamicSGEDecider(SynthesisDecider):
         alternatives = [
             x for x in alternatives if self.grammar.get_distance_to_terminal(x) <= (self.max_depth - ctx.depth)
         ]
+        if not alternatives:
+            raise SynthesisException(f"No alternative of {ty} fits the remaining depth ({self.max_depth - ctx.depth}).")
         return alternatives[v % len(alternatives)]
 
     def choose_options(self, alternatives: list[T], ctx: LocalSynthesisContext) -> T:
